@@ -455,3 +455,39 @@ IN_HEAD = [
 
 for _m, _names, _fn in IN_HEAD:
     globals()["InHead_" + _m] = _mk(_m, _names, _fn, "InHeadPhase")
+
+
+# ------------------------------------------------------------------------------------------- "after head" insertion mode
+# --- body: insert; frameset-ok cleared; "in body"
+def spec_ah_body(old, self, token, result):
+    return (result is None and ops_are(self, [("insert", token)]) and grew_by(old, self, 1)
+            and self.parser.framesetOK is False and same_object(self.parser.phase, self.parser.phases["inBody"]))
+
+
+# --- frameset: insert; "in frameset"
+def spec_ah_frameset(old, self, token, result):
+    return (result is None and ops_are(self, [("insert", token)]) and grew_by(old, self, 1)
+            and same_object(self.parser.phase, self.parser.phases["inFrameset"]))
+
+
+# --- anything else: insert a body element for a start tag token with no attributes; "in body" (the caller reprocesses)
+def spec_ah_anything_else(old, self, result):
+    ops = self.ghost_ops
+    if not (result is None and len(ops) == 1 and ops[0][0] == "insert"):
+        return False
+    t = ops[0][1]
+    return (t["name"] == "body" and t["type"] == 3 and len(t["data"]) == 0 and grew_by(old, self, 1)
+            and same_object(self.parser.phase, self.parser.phases["inBody"]))
+
+
+AFTER_HEAD = [
+    ("startTagBody", ["body"], spec_ah_body),
+    ("startTagFrameset", ["frameset"], spec_ah_frameset),
+    ("startTagHead", ["head"], spec_head_ignore),
+    ("startTagOther", None, spec_head_anything_else_reprocess),
+    ("endTagHtmlBodyBr", ["body", "html", "br"], spec_head_anything_else_reprocess),
+    ("endTagOther", None, spec_head_end_other),
+]
+
+for _m, _names, _fn in AFTER_HEAD:
+    globals()["AfterHead_" + _m] = _mk(_m, _names, _fn, "AfterHeadPhase")
